@@ -4102,11 +4102,16 @@ func (vm *Thread) CaptureStackTrace() *value.StackTrace {
 
 func (vm *Thread) populateMissingParametersInSlice(args []value.Value, paramCount, argumentCount int) []value.Value {
 	// populate missing optional arguments with undefined
-	missingParams := uintptr(paramCount - argumentCount)
+	missingParams := paramCount - argumentCount
 	if missingParams > 0 {
 		newArgs := make([]value.Value, paramCount)
 		copy(newArgs, args)
 		return newArgs
+	}
+	if missingParams < 0 {
+		// the caller passed a slice with surplus slots (natively compiled code
+		// reserves one extra element), only the receiver and the parameters are arguments
+		return args[:paramCount+1]
 	}
 
 	return args
